@@ -1,5 +1,6 @@
 import FiberModel.DriverUtil
 import FiberModel.C15.ConcSpec
+import FiberModel.C15.Corrupt
 /-
 Driver for C15. Case fields (after the id):
   source(cookie|header|query|default) storage(mem|inj|memN|injN; N = built by session.New with an explicit Store) idle abs ops obs
@@ -259,6 +260,91 @@ def handleSchedule (id src sto : String) (cfg : Cfg) (absT : Nat) (ops impl : St
          tags := [src, sto, if absT > 0 then "abs" else "noabs"] ++ scheduleTags evs ++
                  (if sawData then ["nt-saw-saved-data"] else []) }
 
+/-! ### histories with a damaged stored blob: op `c:<id>:<kind>:<n>` (FiberModel/C15/Corrupt.lean) -/
+
+def parseXOp (s : String) : Except String XOp := do
+  match s.splitOn ":" with
+  | ["c", id, kind, n] =>
+    if kind != "p" && kind != "t" && kind != "g" then throw "outside-domain: corrupt kind"
+    match n.toNat? with
+    | some k => if k > 999 then throw "outside-domain: corrupt offset" else pure ()
+    | none => throw "outside-domain: corrupt offset"
+    let v ← hx id
+    if !idSafe v then throw "outside-domain: identifier alphabet"
+    pure (.corrupt v)
+  | _ => do pure (.base (← parseOp s))
+
+def renderXA : XAObs → String
+  | .plain o => renderAObs o
+  | .decodeErr => "err"
+
+def renderXOut : XOut → String
+  | .none => "-"
+  | .corrupted hit => if hit then "c1" else "c0"
+  | .resp r =>
+    if r.panicked then "panic" else
+    let acts := if r.acts.isEmpty then "noacts" else ".".intercalate (r.acts.map renderXA)
+    let ck := match r.outCk with | none => "cnone" | some none => "cexp" | some (some v) => "c" ++ toHexField v
+    let hd := match r.outHd with | none => "hnone" | some v => "h" ++ toHexField v
+    let ks := r.keys.map toHexField
+    s!"{acts},{ck},{hd},{plusList r.gens},{if ks.isEmpty then "-" else "+".intercalate (sortStrings ks)}"
+
+def parseXAObs (s : String) : Except String XAObs :=
+  if s == "err" then pure .decodeErr else do pure (.plain (← parseAObs s))
+
+def parseXSeen (s : String) : Except String (Option XSeen) := do
+  if s == "-" then return none
+  if s == "c0" then return some (.corrupted false)
+  if s == "c1" then return some (.corrupted true)
+  if s == "panic" then return some (.obs { panicked := true })
+  match s.splitOn "," with
+  | [acts, ck, hd, gens, keys] =>
+    let (acts, status) := match acts.splitOn "~" with
+      | [a, st] => (a, st.toNat?.getD 0)
+      | _ => (acts, 200)
+    let al ← (if acts == "noacts" then pure [] else (acts.splitOn ".").mapM parseXAObs)
+    let ckv ← (if ck == "cnone" then pure none else if ck == "cexp" then pure (some none)
+               else do pure (some (some (← hx (ck.drop 1).toString))))
+    let hdv ← (if hd == "hnone" then pure none else do pure (some (← hx (hd.drop 1).toString)))
+    pure (some (.obs { acts := al, outCk := ckv, outHd := hdv, gens := ← parsePlus gens, keys := ← parsePlus keys, status := status }))
+  | _ => throw "bad observation"
+
+/-- tags along the model run: a load failed on a damaged blob; afterwards a request gets a fresh session /
+    presents another live session -/
+def xTags (cfg : Cfg) : XSt → Bool → List XOp → List String
+  | _, _, [] => []
+  | x, failed, o :: os =>
+    let (x', out) := xstep cfg idGen x o
+    let here := match o, out with
+      | .base (.req q), .resp r =>
+        let hit := r.panicked || r.acts.any (· == .decodeErr)
+        let p := presentedId cfg q.pres
+        (if hit then ["nt-corrupt-load-refused"] else []) ++
+        (if r.panicked then ["corrupt-mw-panic"] else []) ++
+        (if failed && !hit then
+          (if (x.st.get p).isNone then ["nt-after-corrupt-fresh"] else ["nt-after-corrupt-other"]) else [])
+      | .corrupt _, .corrupted hit => [if hit then "corrupt-hit" else "corrupt-miss"]
+      | _, _ => []
+    let failed' := failed || (match out with | .resp r => r.panicked || r.acts.any (· == .decodeErr) | _ => false)
+    here ++ xTags cfg x' failed' os
+
+def handleCorrupt (id src sto : String) (cfg : Cfg) (absT : Nat) (ops impl : String) : Except String Verdict := do
+  if sto != "inj" && sto != "injN" then throw "outside-domain: corrupt ops need the injected storage"
+  let xops ← (ops.splitOn ";").mapM parseXOp
+  xops.forM fun o => match o with
+    | .base b => if Op.inDomain b then pure () else throw "outside-domain: script"
+    | _ => pure ()
+  let mo := (xrun cfg idGen {} xops).2.map renderXOut
+  let modelObs := ";".intercalate mo
+  let implL := impl.splitOn ";"
+  let seen ← implL.mapM parseXSeen
+  let spec := if implL.length != xops.length then some "observation-count" else xspecRun cfg {} xops seen
+  match spec with
+  | some e => if e.startsWith "outside-domain" then throw e
+  | none => pure ()
+  pure { id := id, modelObs := modelObs, implObs := impl, spec := spec,
+         tags := [src, sto, if absT > 0 then "abs" else "noabs", "corrupt"] ++ dedup (xTags cfg {} false xops) }
+
 def handleCase (f : List String) : Except String Verdict := do
   match f with
   | [id, src, sto, idle, abs, ops, impl] =>
@@ -273,6 +359,10 @@ def handleCase (f : List String) : Except String Verdict := do
       if impl == "panic" then
         return { id := id, modelObs := "-", implObs := impl, spec := some "constructor-panicked", tags := [src, sto] }
       return ← handleSchedule id src sto cfg abs ops impl
+    if (ops.splitOn ";").any (fun o => o.startsWith "c:") then
+      if impl == "panic" then
+        return { id := id, modelObs := "-", implObs := impl, spec := some "constructor-panicked", tags := [src, sto] }
+      return ← handleCorrupt id src sto cfg abs ops impl
     let opl ← (if ops == "-" then pure [] else (ops.splitOn ";").mapM parseOp)
     let mo := runModel cfg {} opl
     let modelObs := if mo.isEmpty then "-" else ";".intercalate mo
